@@ -156,11 +156,14 @@ def exec_one(target, path, grant=False, timeout=1500):
     rc, out, err, wall = run_miri(target, "", args, timeout)
     res = {"file": path, "target": target, "grant": grant, "rc": rc, "wall": wall, "ops": len(j["ops"]), "native": j["meta"]["native_h_portable"],
            "native_violation": j["meta"].get("native_violation")}
-    last, last_route = "none", 0
+    last, last_route, last_idx = "none", 0, None
     for m in re.finditer(r"^@op (\S+) (\S+)(?: route_len=(\d+))?", out, re.M):
         last = m.group(2)
         last_route = int(m.group(3) or 0)
+        if m.group(1).isdigit():
+            last_idx = int(m.group(1))
     res["last_op"] = last
+    res["last_op_index"] = last_idx
     res["last_route_len"] = last_route
     m = re.search(r"^RESULT \S+ ok h_portable=([0-9a-f]+) steps=(\d+) calls=(\d+)", out, re.M)
     if m:
@@ -197,9 +200,26 @@ def minimise_exec(r, want_status, want_prop=None, max_rounds=6):
     tmpdir = os.path.join(BUILD, "tmp", "miri-min")
     os.makedirs(tmpdir, exist_ok=True)
     before = len(cur["ops"])
+    t_start = time.time()
+    budget = 240  # seconds: the interpreter is slow; a shorter list is a convenience, the full one replays as well
+    # operations after the one the failure was reported in cannot matter: cut there first (one confirming run)
+    step = (r.get("detail") or {}).get("step") if isinstance(r.get("detail"), dict) else None
+    if step is None:
+        step = r.get("last_op_index")
+    if isinstance(step, int) and 0 <= step < len(cur["ops"]) - 1:
+        c = dict(cur)
+        c["ops"] = cur["ops"][: step + 1]
+        p = os.path.join(tmpdir, f"cand-{os.getpid()}-cut.json")
+        json.dump(c, open(p, "w"))
+        if same_failure(exec_one(r["target"], p, grant=r.get("grant", False)), want_status, want_prop):
+            cur = c
+        try:
+            os.remove(p)
+        except OSError:
+            pass
     for rnd in range(max_rounds):
         n = len(cur["ops"])
-        if n <= 1:
+        if n <= 1 or time.time() - t_start > budget:
             break
         cands = []
         for i in range(n):
